@@ -43,6 +43,7 @@ class Path:
 class Ctx:
     def __init__(self):
         self.query_timeout_ms = 120000
+        self.deadline = None          # wall-clock budget of the current job (set by the harness); exceeding it is inconclusive
         self.stats = {"queries": 0, "solver_s": 0.0, "sat": 0, "unsat": 0, "unknown": 0,
                       "paths": 0, "forks": 0, "aborted": 0, "sign_shortcuts": 0}
         self.new_session()
@@ -76,6 +77,8 @@ class Ctx:
         fs = [f for f in formulas if not isinstance(f, bool)]
         if any(isinstance(f, bool) and not f for f in formulas):
             return ("unsat", None)
+        if self.deadline is not None and time.time() > self.deadline:
+            raise Inconclusive("job wall-clock budget exceeded")
         core = list(self.assumptions) + list(self.sentinel_assumed) + (list(self.pc) if use_pc else []) + fs
         defs, names = relevant_defs(core)
         s = z3.Solver()
@@ -267,6 +270,8 @@ class Ctx:
         while self.pending:
             if tracing and len(out) == _pt.TRACE.TRACED_PATHS:
                 _pt.TRACE.pause()
+            if self.deadline is not None and time.time() > self.deadline:
+                raise Inconclusive("job wall-clock budget exceeded")
             prefix = self.pending.pop()
             self.prefix = prefix
             self.trace = []
